@@ -55,6 +55,7 @@ func genC29(r *simrt.Rand, tier string) any {
 			ShardCount:       []int{1, 4}[r.Intn(2)],
 			FlushQueueSize:   100,
 			StorageLatencyUs: []int{0, 0, 300, 5000, 200000}[r.Intn(5)],
+			ExecLatencyMs:    []int{0, 0, 0, 40, 400, 1500, 4000}[r.Intn(7)],
 		},
 		Query:     []string{"count", "count", "grouped"}[r.Intn(3)],
 		IntervalS: []int{10, 10, 15, 30}[r.Intn(4)],
@@ -62,14 +63,59 @@ func genC29(r *simrt.Rand, tier string) any {
 	}
 	// swarm: each run enables a subset of the disturbing op kinds
 	on := map[string]bool{}
-	for _, k := range []string{"exec", "exec-explicit", "exec-async", "update", "bad", "restart", "crash", "outage", "wallstep", "inactive"} {
+	for _, k := range []string{"exec", "exec-explicit", "exec-async", "update", "bad", "restart", "crash", "outage", "wallstep", "inactive", "burst"} {
 		on[k] = r.Chance(50)
+	}
+	if on["burst"] && p.Knobs.ExecLatencyMs == 0 && r.Chance(70) {
+		// bursts are about executions that overlap each other: mostly give
+		// an execution some duration (zero stays in: pure interleaving)
+		p.Knobs.ExecLatencyMs = []int{40, 400, 1500, 4000}[r.Intn(4)]
+	}
+	// burst: 3-5 manual executions of the CQ issued on their own tasks within
+	// about two execution durations of each other, optionally around a
+	// scheduler tick, so that one execution runs while others wait for it and
+	// more arrive while the queue drains.
+	burst := func() {
+		lat := int64(p.Knobs.ExecLatencyMs)
+		if lat < 4 {
+			lat = 4
+		}
+		if r.Chance(50) {
+			// the scheduled execution starts up to one duration before ... a
+			// little after the first manual one
+			p.Ops = append(p.Ops, Op{Kind: "tick", Ms: r.Int63n(lat+lat/4+1) - lat})
+		}
+		for k := 3 + r.Intn(3); k > 0; k-- {
+			op := Op{Kind: "exec", Async: true}
+			if r.Chance(10) {
+				op.EndAgo = i64(int64(r.Intn(40))) // default start, explicit end in the past
+			}
+			p.Ops = append(p.Ops, op)
+			if k == 1 {
+				break
+			}
+			var gap int64
+			switch r.Intn(5) {
+			case 0: // back to back
+			case 1:
+				gap = 1 + r.Int63n(lat/4+1)
+			default:
+				gap = 1 + r.Int63n(lat*3/2)
+			}
+			if gap > 0 {
+				p.Ops = append(p.Ops, Op{Kind: "sleep", Ms: gap})
+			}
+		}
 	}
 	n := 4 + r.Intn(12)
 	if tier == "thorough" {
 		n = 4 + r.Intn(24)
 	}
-	for i := 0; i < n; i++ {
+	for i := 0; i < n && len(p.Ops) < 40; i++ {
+		if on["burst"] && r.Chance(12) {
+			burst()
+			continue
+		}
 		var op Op
 		switch x := r.Intn(100); {
 		case x < 22:
@@ -216,6 +262,8 @@ type c29exec struct {
 	closedOK   bool // final graceful shutdown flushed the buffer
 	traces     map[string]*execTrace
 	harnessErr string
+	// most manual (non-dry) execute requests that were outstanding at once
+	maxInflight int
 }
 
 func parseTS(s string) (time.Time, bool) {
@@ -242,6 +290,7 @@ func execC29(p *C29Plan, cfg simrt.Config, root string) *c29exec {
 		jobStart := int64(0) // sim ns when the scheduler (re)started the job's ticker
 		interval := int64(p.IntervalS) * int64(time.Second)
 		rowID := int64(0)
+		inflight := 0 // outstanding manual execute requests of this process
 
 		restart := func(graceful bool) {
 			if n.up && graceful {
@@ -264,6 +313,7 @@ func execC29(p *C29Plan, cfg simrt.Config, root string) *c29exec {
 				}
 				n.up = false
 				ex.crashes++
+				inflight = 0
 				simrt.Revive(n.sn)
 			} else {
 				ex.restarts++
@@ -347,7 +397,16 @@ func execC29(p *C29Plan, cfg simrt.Config, root string) *c29exec {
 				ex.manual = append(ex.manual, req)
 				simrt.Event("MANUAL-EXEC start=%q end=%q dry=%v async=%v", req.explicitStart, req.explicitEnd, op.Dry, op.Async)
 				do := func() {
+					if !op.Dry {
+						inflight++
+						if inflight > ex.maxInflight {
+							ex.maxInflight = inflight
+						}
+					}
 					st, rb := n.call("POST", cqPath+"/execute", body)
+					if !op.Dry {
+						inflight--
+					}
 					req.status = st
 					if st == 200 {
 						var r struct {
@@ -800,6 +859,9 @@ func runC29(planAny any, cfg simrt.Config) *simkit.Outcome {
 	out.Stats["probe.output_rows"] += int64(len(ex.dstRows))
 	out.Stats["probe.crashes"] += int64(ex.crashes)
 	out.Stats["probe.restarts"] += int64(ex.restarts)
+	if ex.maxInflight >= 3 {
+		out.Stats["probe.runs_with_3plus_manual_executions_outstanding"]++
+	}
 	out.Nontrivial = nSucc >= 2 && (nFail > 0 || ex.crashes+ex.restarts > 0 || ex.res.Preempts > 0 || nSched > 0)
 	return out
 }
@@ -870,6 +932,16 @@ func shrinkC29(planAny any) []any {
 		q.Knobs.StorageLatencyUs = 0
 		out = append(out, q)
 	}
+	if p.Knobs.ExecLatencyMs != 0 {
+		q := cp()
+		q.Knobs.ExecLatencyMs = 0
+		out = append(out, q)
+		if p.Knobs.ExecLatencyMs > 100 {
+			q = cp()
+			q.Knobs.ExecLatencyMs = p.Knobs.ExecLatencyMs / 2
+			out = append(out, q)
+		}
+	}
 	if p.Query != "count" {
 		q := cp()
 		q.Query = "count"
@@ -916,5 +988,5 @@ func descC29(planAny any) any {
 		s = append(s, d)
 	}
 	return map[string]any{"query": p.Query, "interval_s": p.IntervalS, "seed_source": p.Seed, "ops": s,
-		"buffer_size": p.Knobs.MaxBufferSize, "buffer_age_ms": p.Knobs.MaxBufferAgeMS, "storage_latency_us": p.Knobs.StorageLatencyUs}
+		"buffer_size": p.Knobs.MaxBufferSize, "buffer_age_ms": p.Knobs.MaxBufferAgeMS, "storage_latency_us": p.Knobs.StorageLatencyUs, "exec_latency_ms": p.Knobs.ExecLatencyMs}
 }
